@@ -317,9 +317,20 @@ PreludeForms == ReadAll(PreludeText)
 State0 == LET r == EvBody(PreludeForms, 1, 1, BaseState) IN
             IF Ok(r) THEN [r.st EXCEPT !.fuel = Fuel0] ELSE Assert(FALSE, <<"prelude failed", r.k, r.v>>)
 
+\* TLC re-evaluates recursive constant definitions on every use, so the evaluated
+\* prelude is cached in TLC register 1 (set once, by the main thread, from an ASSUME
+\* of the model being run: ASSUME InitRegisters) and a per-model context in register 2.
+InitRegisters == TLCSet(1, State0)
+Base == TLCGet(1)
+SetContext(forms) == TLCSet(2, LET r == EvBody(forms, 1, 1, State0) IN
+                                 IF Ok(r) THEN [r.st EXCEPT !.fuel = Fuel0] ELSE Assert(FALSE, <<"context failed", r.k>>))
+CtxBase == TLCGet(2)
+
 \* Run a program (sequence of top-level forms) in a fresh environment
-Run(forms) == EvBody(forms, 1, 1, State0)
+Run(forms) == EvBody(forms, 1, 1, Base)
 RunText(s) == Run(ReadAll(s))
+\* ... after the model's context forms
+RunInCtx(forms) == EvBody(forms, 1, 1, CtxBase)
 
 \* observable outcome of a run: kind, value, effect log, selected globals
 Global(st, name) == IF name \in DOMAIN st.envs[1].b THEN st.envs[1].b[name] ELSE Mk("unbound", 0, "", <<>>, NoMap)
